@@ -181,6 +181,13 @@ Fixpoint parents_go (prev : list (nat * linfo)) (i : nat) (ls : list linfo) : li
   | x :: r => parent_of prev i x :: parents_go ((i, x) :: prev) (S i) r
   end.
 Definition parents_model (ls : list linfo) : list nat := parents_go [] 0 ls.
+(* property C02 (Model/Links.v) writes "no parent" as None; obj.parent is then the object itself *)
+Fixpoint self_or (i : nat) (ps : list (option nat)) : list nat :=
+  match ps with
+  | [] => []
+  | Some p :: r => p :: self_or (S i) r
+  | None :: r => i :: self_or (S i) r
+  end.
 (* children of p: ascending list of the other lines whose parent is p *)
 Definition children_model (ps : list nat) : list (list nat) :=
   map (fun p => filter (fun i => (nth i ps i =? p) && negb (i =? p))%bool (seq 0 (length ps))) (seq 0 (length ps)).
